@@ -1377,6 +1377,8 @@ class TOTP:
         if label:
             # NOTE: KeyURI spec says there may be leading spaces
             label = label.strip() or None
+        if not label:
+            raise cls._uri_parse_error("missing label")
 
         # parse query params
         params = dict(label=label)
@@ -1614,7 +1616,12 @@ class TOTP:
         # go ahead and mark as changed (needs re-saving) if the version is too old
         assert cls._check_otp_type(type)
         ver = kwds.pop("v", None)
-        if not ver or ver < cls.min_json_version or ver > cls.json_version:
+        if (
+            not isinstance(ver, int)
+            or not ver
+            or ver < cls.min_json_version
+            or ver > cls.json_version
+        ):
             raise cls._dict_parse_error(f"missing/unsupported version ({ver!r})")
         if ver != cls.json_version:
             # mark older version as needing re-serializing
@@ -1625,9 +1632,10 @@ class TOTP:
             # encrypted key, so if to_json() is called again, the encrypted
             # key can be re-used.
             # XXX: wallet is known at this point, could decrypt key here.
-            assert "key" not in kwds  # shouldn't be present w/ enckey
+            if "key" in kwds:  # shouldn't be present w/ enckey
+                raise cls._dict_parse_error("both 'enckey' and 'key' present")
             kwds.update(key=kwds.pop("enckey"), format="encrypted")
-        elif "key" not in kwds:
+        elif not kwds.get("key"):
             raise cls._dict_parse_error("missing 'enckey' / 'key'")
         # XXX: could should set changed=True if active wallet is available,
         #      and source wasn't encrypted.
